@@ -56,14 +56,15 @@ type Case struct {
 	Step      int64                   `json:"step"`
 	Origin    int64                   `json:"origin"`
 	Series    []fakeprom.BitmapSeries `json:"series"`
-	OrderKeys []int                   `json:"order_keys"` // release order = slice indexes sorted by (key[i%len], i)
+	Orders    [][]int                 `json:"orders,omitempty"` // per-slice listing order of the series in a response
+	OrderKeys []int                   `json:"order_keys"`       // release order = slice indexes sorted by (key[i%len], i)
 	PermKeys  [][]int                 `json:"perm_keys,omitempty"`
 	Hold      bool                    `json:"hold"`
 	Class     string                  `json:"class,omitempty"`
 }
 
 func (c Case) bitmap() fakeprom.Bitmap {
-	return fakeprom.Bitmap{Origin: c.Origin, Step: c.Step, Series: c.Series}
+	return fakeprom.Bitmap{Origin: c.Origin, Step: c.Step, Series: c.Series, Orders: c.Orders}
 }
 
 type absRange struct{ start, end, step int64 }
@@ -571,11 +572,16 @@ func run(c Case) (shape, error) {
 
 var steps = []int64{1, 2, 5, 10, 15, 30, 60, 60, 120, 300, 300, 420, 600, 660, 900, 1800, 2700, 3600, 3660, 7200, 10800}
 
-var seriesLabels = []map[string]string{
-	{"instance": "1"},
-	{"instance": "2"},
-	{"instance": "1", "job": "a"},
-	{"__name__": "up", "instance": "1", "job": "b"},
+// label sets over a small universe, with different label NAMES per series (subsets of each other included)
+var labelPool = []map[string]string{
+	{"instance": "a"},
+	{"instance": "b"},
+	{"job": "x"},
+	{"instance": "a", "job": "x"},
+	{"instance": "b", "job": "x"},
+	{"cluster": "c1"},
+	{"instance": "a", "job": "x", "cluster": "c1"},
+	{"__name__": "up", "instance": "a", "job": "y"},
 }
 
 func genCase(t *rapid.T, kind string) Case {
@@ -642,6 +648,7 @@ func genCase(t *rapid.T, kind string) Case {
 	}
 
 	ns := rapid.IntRange(1, 4).Draw(t, "nseries")
+	seriesLabels := rapid.Permutation(labelPool).Draw(t, "labelsets")[:ns]
 	for si := 0; si < ns; si++ {
 		lbl := fmt.Sprintf("s%d.", si)
 		bits := make([]bool, nbits)
@@ -692,6 +699,17 @@ func genCase(t *rapid.T, kind string) Case {
 		c.Series = append(c.Series, fakeprom.BitmapSeries{Labels: seriesLabels[si], Runs: fakeprom.RunsOf(bits)})
 	}
 
+	// the order in which a response lists the series varies from slice to slice
+	if ns > 1 {
+		idx := make([]int, ns)
+		for i := range idx {
+			idx[i] = i
+		}
+		for i, no := 0, rapid.IntRange(0, 3).Draw(t, "norders"); i < no; i++ {
+			c.Orders = append(c.Orders, rapid.Permutation(idx).Draw(t, fmt.Sprintf("listing%d", i)))
+		}
+	}
+
 	keyGen := rapid.SliceOfN(rapid.IntRange(0, 999), nKeys, nKeys)
 	if kind == "http" {
 		c.Hold = rapid.IntRange(0, 9).Draw(t, "hold") != 0
@@ -729,9 +747,9 @@ var wsRe = regexp.MustCompile(`\s+`)
 
 func caseKey(c Case) string {
 	var b strings.Builder
-	fmt.Fprintf(&b, "%s|%d|%d|%d|%v|%v", c.Kind, c.Start, c.End, c.Step, c.OrderKeys, c.PermKeys)
+	fmt.Fprintf(&b, "%s|%d|%d|%d|%v|%v|%v", c.Kind, c.Start, c.End, c.Step, c.OrderKeys, c.PermKeys, c.Orders)
 	for _, s := range c.Series {
-		fmt.Fprintf(&b, "|%v", s.Runs)
+		fmt.Fprintf(&b, "|%v%v", s.Labels, s.Runs)
 	}
 	return b.String()
 }
